@@ -87,6 +87,13 @@ CLAIMED.update({
         ref="DESIGN.md#c20"),
 })
 
+CLAIMED["C14"] = dict(
+    text="Grid.moments (all four types, return_orders), generate_orders_horton_order and dipole_moment_of_molecule are executed on symbolic points, weights, function values and centres (plain grids in 1-3 "
+         "dimensions and an AtomGrid with a symbolic centre); every returned entry is shown equal to sum_i w_i f_i basis(r_i - R) with the basis built independently (monomials, |r-R|^n, regular solid harmonics "
+         "re-typed in Cartesian form), the order list is the documented Horton order, and the dipole equals nuclear minus electronic first moments about the centre of mass.",
+    note="orders <= 2/4 (Cartesian), l <= 2/3 (pure), <= 3 symbolic centres; angles are unit-circle pairs so poles / axes are forked, not excluded; fixed: 1-D Cartesian orders",
+    ref="DESIGN.md#c14")
+
 NOT_APPLICABLE = {
     "C02": "no symbolic input: validating 450 shipped data files against harmonics up to degree 325 is floating-point enumeration of concrete runs, outside solver-based checking and outside solver reach (the table/lookup half is decided in C12)",
 }
